@@ -1,5 +1,6 @@
 """Path context, decision trail and path explorer (re-execution based)."""
 import itertools
+import os
 import time
 import z3
 
@@ -70,6 +71,7 @@ class Ctx(object):
         self.pure_depth = 0
         self.fn_name = explorer.fn_name
         self.global_hyps = []
+        self.quant_mode = 0
 
     # -- fresh symbols (deterministic per path so that re-execution reproduces names)
     def fresh_name(self, base):
@@ -136,8 +138,30 @@ class Ctx(object):
             return self.prefix[i]
         return None
 
-    def branch(self, cond, label=None):
-        """Decide a symbolic condition; forks the exploration when both sides are feasible."""
+    def feasible_full(self, f):
+        """second opinion with the quantified hypotheses included (short timeout); only 'unsat' counts"""
+        if not any(has_quantifier(h) for h in self.pc):
+            return True
+        s = z3.Solver()
+        s.set('timeout', self.explorer.full_timeout_ms)
+        for h in self.pc:
+            s.add(h)
+        s.add(f)
+        self.explorer.n_branch_queries += 1
+        t0 = time.time()
+        r = s.check()
+        self.explorer.branch_solver_s += time.time() - t0
+        if r != z3.unsat and os.environ.get('PYVC_DEBUG'):
+            import sys
+            print('feasible_full: %s in %.2fs for %s' % (r, time.time() - t0, str(f)[:300]), file=sys.stderr)
+            if os.environ.get('PYVC_DEBUG') == 'dump':
+                open('/verif/scratch/last_full.smt2', 'w').write(s.to_smt2())
+        return r != z3.unsat
+
+    def branch(self, cond, label=None, safety=None):
+        """Decide a symbolic condition; forks the exploration when both sides are feasible.
+        safety=True/False names the side that raises a built-in exception: that side is double-checked
+        against the full path condition (quantified facts included) before it is explored."""
         if isinstance(cond, bool):
             return cond
         cond = z3.simplify(cond)
@@ -145,12 +169,22 @@ class Ctx(object):
             return True
         if z3.is_false(cond):
             return False
+        if self.quant_mode:
+            # building a term over a bound variable: range checks were established when the sequence
+            # was created (the term is only used under its guard); anything else cannot be decided here
+            if safety is not None:
+                return safety is False
+            raise Unsupported('fork on a bound variable')
         forced = self._next_decision()
         if forced is not None:
             d = forced
         else:
             can_t = self.feasible(cond)
             can_f = self.feasible(z3.Not(cond))
+            if safety is True and can_t and can_f:
+                can_t = self.feasible_full(cond)
+            elif safety is False and can_t and can_f:
+                can_f = self.feasible_full(z3.Not(cond))
             if can_t and can_f:
                 d = True
                 self.explorer.push(self.trail + [False])
@@ -220,6 +254,7 @@ class Explorer(object):
         self.max_paths = max_paths
         self.max_decisions = max_decisions
         self.branch_timeout_ms = branch_timeout_ms
+        self.full_timeout_ms = 2500
         self.n_branch_queries = 0
         self.branch_solver_s = 0.0
         self.paths = []
